@@ -3,7 +3,7 @@ import json, os, random, re, subprocess, time
 from .. import common, attr
 
 TOKEN = re.compile(r'"(?:[^"\\]|\\.)*"|b\'[^\']*\'|\'[^\']\'|[A-Za-z_][A-Za-z0-9_]*|[0-9][0-9A-Za-z_.]*|::|->|=>|[^\sA-Za-z0-9_]')
-REPLACEMENTS = ['"rang_très_élevé"', '"aéééééééééééééééé"', '"aaéééééééééééééééé"', "&(u8)", "(u8)", "&'static (dyn Fn(u32) -> u32 + Sync)",
+REPLACEMENTS = ["_Nothing", '"rang_très_élevé"', '"aéééééééééééééééé"', '"aaéééééééééééééééé"', "&(u8)", "(u8)", "&'static (dyn Fn(u32) -> u32 + Sync)",
                 "&&(u8)", "fn(u8) -> u8", "[(u8); 2]", "unsafe", "*", "-1", "99999999999999999999", '"é"', "a::b", "()", "true", "false", '""', "1.5", "'c'", "b\"x\"",
                 "r#type", "Self", "self", "_", "name", "ignore", "method", "bound", "rank", "expression", "new", "named_field",
                 "Debug", "Into", "u8", "&'static str", ",", "=", "(", ")", "[", "]", "{", "}", "#", "!", "?", "'a", "12_u8", "0x10",
@@ -30,6 +30,35 @@ ADVERSARIAL_ATTRS = [
     '#[educe(Debug(name("type")))]', '#[educe(Debug = "r#type")]', '#[educe(Debug(name = " padded "))]', '#[educe(Debug(rename = "1abc"))]', '#[educe(Debug(name("")))]',
     '#[educe(Ord(rank(" 1")))]', '#[educe(Ord(rank = "+1"))]', '#[educe(Ord(rank("0x10")))]', '#[educe(Hash(method("r#fn::x")))]', '#[educe(Hash(method = " m "))]', "#[educe(Debug(name(1 foo)))]", "#[educe(Debug(name(true false)))]", "#[educe(Default(expr(1, 2)))]", "#[educe(Hash(method(1)))]",
 ]
+
+
+def source_names():
+    """Names the crate's own source gives to enum variants, consts and statics (`Trait::_Nothing`, `Bound::Auto`, ...): a lookup
+    by name that was meant for the documented trait names may accept one of these as well."""
+    names = set()
+    for root, _, files in os.walk(os.path.join(common.REPO, "src")):
+        for f in files:
+            if not f.endswith(".rs"):
+                continue
+            text = open(os.path.join(root, f)).read()
+            for m in re.finditer(r"\benum\s+\w+[^{;]*\{((?:[^{}]|\{[^{}]*\})*)\}", text):
+                body = re.sub(r"#\[[^\]]*\]|//[^\n]*", " ", m.group(1))
+                for v in re.finditer(r"(?:^|,)\s*([A-Za-z_]\w*)", body):
+                    names.add(v.group(1))
+            names.update(re.findall(r"\b(?:const|static)\s+([A-Z_][A-Z0-9_]*)\s*:", text))
+    return sorted(names)
+
+
+def source_name_attrs():
+    known = {"Debug", "Clone", "Copy", "PartialEq", "Eq", "PartialOrd", "Ord", "Hash", "Default", "Deref", "DerefMut", "Into"}
+    out = []
+    for n in source_names():
+        if n in known:
+            continue
+        out += ["#[educe(%s)]" % n, "#[educe(Debug, %s)]" % n, "#[educe(%s(x))]" % n, "#[educe(%s = 1)]" % n]
+    return out
+
+
 ODD_TYPES = ["&'static (dyn ::core::fmt::Debug + Send)", "&'static (dyn ::core::fmt::Debug + Send + 'static)", "Box<(dyn Fn(u8) -> u8 + Send)>",
              "(u8)", "&'static (u8)", "&'static &'static (u8)", "&'static (dyn Fn(u32) -> u32 + Sync)", "fn(u8) -> u8", "[(u8); 2]",
              "((u8),)", "*const (u8)", "&'static [(u8)]", "Option<&'static (u8)>"]
@@ -104,8 +133,10 @@ def main(tier):
     tie = {"evaluations": 0, "distinct_nontrivial": 0, "failing": [], "broken": [], "broken_details": [], "known": [], "samples": [], "extra": {}}
     cases = []
     # (1) adversarial forms at the type level and at field / variant level
-    for a in ADVERSARIAL_ATTRS:
-        for it in ITEMS:
+    own = source_name_attrs()
+    tie["extra"]["names_of_the_source_used_as_trait_names"] = len(own) // 4
+    for a in ADVERSARIAL_ATTRS + own:
+        for it in (ITEMS if a in ADVERSARIAL_ATTRS else ITEMS[3:8:2]):
             cases.append("#[derive(Educe)]\n%s\n%s" % (a, it))
         for it in FIELD_ATTR_ITEMS:
             tr = re.findall(r"educe\(\s*(?:::)?(\w+)", a)
@@ -188,6 +219,7 @@ def main(tier):
     tie["rule"] = ("%d adversarial attribute forms x item shapes (type, variant and field positions) plus token-level mutations (delete, "
                    "duplicate, swap, replace, insert, truncate) of valid #[educe(...)] arguments from all behavioural generators; run in-process "
                    "under catch_unwind, each also with its field types inside None-delimited groups (whole type / referent of a reference / every parenthesised type, as `$t:ty` macro fragments arrive); outcome kind (ok / diagnostic / panic) compared with the model; in-process panics re-run through rustc. "
+                   "the names the crate's own source gives to enum variants, consts and statics are tried as trait names too (`_Nothing`, `Auto`, ...). "
                    "distinct_nontrivial = accepted inputs + distinct diagnostic classes hit" % len(ADVERSARIAL_ATTRS))
     tie["samples"] = [{"rust_source": src[i], "outcome": real[i]["outcome"], "message": real[i].get("message", "")[:120]} for i in list(src)[5::997][:5]]
     return common.finish("C17", tier, t0, proof, tie)
